@@ -53,10 +53,19 @@ BACKEND = {'dict': 'BDict', 'fs': 'BFs', 'zip': 'BZip', 'cfs': 'BFs'}
 def run_impl(case):
     try:
         with vlib.time_limit(120):
+            kills, ktrace = [], []
             r0 = impl.execute(case, None)
+            runs = [impl.execute(case, k) for k in range(r0['count'])]
+            if case['backend'] != 'dict' and case.get('kill', True):
+                # kill runs: history once, the final operation in a forked child that stops before position k
+                ra = impl.execute_all(case, tuple(case.get('kill_modes', ('noflush', 'flush'))), raise_runs=False)
+                if 'error' in ra:
+                    return {'crash': ra['error']}
+                if ra['before'] != r0['before'] or ra['after'] != r0['after']:
+                    return {'crash': 'non-deterministic run (kill runs)'}
+                kills, ktrace = ra['kills'], ra['ktrace']
             crashes = []
-            for k in range(r0['count']):
-                rk = impl.execute(case, k)
+            for k, rk in enumerate(runs):
                 if not rk['fired'] or rk['before'] != r0['before']:
                     return {'crash': 'non-deterministic primitive sequence at k=%d' % k}
                 crashes.append({'k': k, 'prim': r0['trace'][k], 'wb': rk['writes_before'], 'outcome': rk['outcome'],
@@ -64,7 +73,7 @@ def run_impl(case):
                                 'post_outcome': rk.get('post_outcome')})
             return {'before': r0['before'], 'outcome': r0['outcome'], 'after': r0['after'], 'trace': r0['trace'],
                     'crashes': crashes, 'after_post': r0.get('post_obs', r0['after']),
-                    'post_outcome': r0.get('post_outcome')}
+                    'post_outcome': r0.get('post_outcome'), 'kills': kills, 'ktrace': ktrace}
     except vlib.Timeout:
         return {'hang': True}
     except Exception as e:
@@ -109,12 +118,14 @@ def to_coq(case, obs):
     out = 'OutOk' if obs['outcome'] == 'ok' else '(OutErr %s)' % ERR[obs['outcome']]
     if any(c.get('post_outcome') == 'fault' for c in obs['crashes']) or obs.get('post_outcome') == 'fault':
         return 'CCrash'
-    return '(CStore %s %s %s %s %s %s %s %s %s)' % (
+    g_crash = lambda c: '{| writes_before := %s; seen := %s; seen_post := %s |}' % (
+        gN(c['wb']), g_obs(c['obs']), g_obs(c['post']))
+    return '(CStore %s %s %s %s %s %s %s %s %s %s)' % (
         BACKEND[case['backend']], glist(lambda o: g_op(case['objs'], o), case['history']),
         g_op(case['objs'], case['final']), g_obs(obs['before']), out, g_obs(obs['after']),
-        glist(lambda c: '{| writes_before := %s; seen := %s; seen_post := %s |}' % (
-            gN(c['wb']), g_obs(c['obs']), g_obs(c['post'])), obs['crashes']),
-        '(Some %s)' % g_op(case['objs'], case['post']) if case.get('post') else 'None', g_obs(obs['after_post']))
+        glist(g_crash, obs['crashes']),
+        '(Some %s)' % g_op(case['objs'], case['post']) if case.get('post') else 'None', g_obs(obs['after_post']),
+        glist(lambda seq: glist(g_crash, seq), obs.get('kills', [])))
 
 
 # ---------------------------------------------------------------------------------------------------------------------
@@ -288,11 +299,18 @@ def add_post(case, rng):
     return case
 
 
+KILL_SHARE = {'quick': 0.2, 'thorough': 0.3}
+
+
 def gen_cases(rng, tier, ctx):
     cases = _gen_cases(rng, tier, ctx)
     for c in cases:
         if rng.random() < 0.4:
             add_post(c, rng)
+        # kill runs (process stops at every position, two flush modes) are expensive: on a share of the cases
+        c['kill'] = c['backend'] != 'dict' and (rng.random() < KILL_SHARE[tier] or c['note'] in ('cycle', 'enum delete'))
+        # 'noflush': data the process only handed to python file objects are lost; 'flush': they reached the disk
+        c['kill_modes'] = rng.choice([['flush'], ['flush'], ['noflush']] + ([['noflush', 'flush']] if tier == 'thorough' else []))
     return cases
 
 
@@ -353,6 +371,10 @@ def nontrivial(case, obs):
     return len(obs['crashes']) >= 2 or obs['outcome'] in ('clash', 'unser')
 
 
+def _kill_positions(obs):
+    return len(obs['kills'][0]) if obs.get('kills') else 0
+
+
 def histogram_keys(case, obs):
     keys = ['backend:' + case['backend'], 'final:' + case['final']['op'], 'fault:' + case.get('fault', 'raise'),
             'followup:' + (case['post']['op'] if case.get('post') else 'none')]
@@ -363,6 +385,13 @@ def histogram_keys(case, obs):
         keys.append('stored_before:%d' % min(len(obs['before']['entries']), 6))
         for p in set(obs['trace']):
             keys.append('prim:' + p)
+        nk = _kill_positions(obs)
+        keys.append('kill_positions:' + ('none' if not obs.get('kills') else '0' if nk == 0 else '1-4' if nk <= 4
+                                         else '5-9' if nk <= 9 else '10+'))
+        for p in set(obs.get('ktrace', [])):
+            keys.append('killpos:' + p)
+        if any(c['leftovers'] for seq in obs.get('kills', []) for c in seq):
+            keys.append('kill:temp-file-left-behind')
     else:
         keys.append('obs:crash')
     if case['note'].startswith('enum'):
@@ -428,6 +457,8 @@ def spec_failures(case, obs):
 
     def ok(where, o, wb):
         cur = {e[0]: e[1] for e in o['entries']}
+        if o['missing']:
+            out.append((where, 'a', 'the archive file is missing or not a readable archive'))
         for e in o['entries']:
             if not e[2]:
                 out.append((where, 'a', 'n%d is listed but does not load (document %s)' % (e[0], e[1])))
@@ -450,6 +481,18 @@ def spec_failures(case, obs):
                 if not e[2]:
                     out.append(('failure at primitive %d (%s), then %s' % (c['k'], c['prim'], case['post']['op']), 'a',
                                 'n%d is listed but does not load after the follow-up operation (document %s)' % (e[0], e[1])))
+    for seq in obs.get('kills', []):
+        for c in seq:
+            where = 'process killed before position %d (%s, %s)' % (c['k'], c['prim'], c['mode'])
+            ok(where, c['obs'], c['wb'])
+            if case.get('post'):
+                if c['post']['missing']:
+                    out.append((where + ', then %s by a new process' % case['post']['op'], 'a',
+                                'the archive file is missing or not a readable archive'))
+                for e in c['post']['entries']:
+                    if not e[2]:
+                        out.append((where + ', then %s by a new process' % case['post']['op'], 'a',
+                                    'n%d is listed but does not load (document %s)' % (e[0], e[1])))
     if case.get('post') and all(e[2] for e in obs['after']['entries']):
         for e in obs['after_post']['entries']:
             if not e[2]:
